@@ -711,24 +711,21 @@ def _deserialized_experimental_value_info_for_function_ir9(
         dict[str, onnx.ValueInfoProto],
     ] = collections.defaultdict(dict)
     for value_info_proto in value_info_protos:
-        if (
-            parsed := _parse_experimental_function_value_info_name(value_info_proto.name)
-        ) is None:
-            continue
-        function_domain, function_name, value_name = parsed
-        function_overload = ""
-        # TODO(justinchuby): Create a constructor for OperatorIdentifier so we don't create tuples manually
-        function_id = (function_domain, function_name, function_overload)
-        function = functions.get(function_id)
-        if function is None:
-            # Function not found
+        # Match against the functions of the model instead of splitting the name: the domain
+        # and the value name may themselves contain "::" or "/", and the serializer writes
+        # the same "{domain}::{name}/" prefix for every overload
+        matched = False
+        for function_id in functions:
+            prefix = f"{function_id[0]}::{function_id[1]}/"
+            if value_info_proto.name.startswith(prefix):
+                value_name = value_info_proto.name[len(prefix) :]
+                function_value_value_info_mapping[function_id][value_name] = value_info_proto
+                matched = True
+        if not matched and _parse_experimental_function_value_info_name(value_info_proto.name):
             logger.debug(
-                "Function with ID '%s' not found in model functions. Value info '%s' will be ignored.",
-                function_id,
+                "No function of the model matches value info '%s'. It will be ignored.",
                 value_info_proto.name,
             )
-            continue
-        function_value_value_info_mapping[function_id][value_name] = value_info_proto
     for function_id, function in functions.items():
         for input in function.inputs:
             if input.name in function_value_value_info_mapping[function_id]:
